@@ -17,7 +17,7 @@ from fractions import Fraction
 import numpy as np
 
 PROP = "C41"
-N = {"quick": 500, "thorough": 30000}
+N = {"quick": 500, "thorough": 20000}
 WORKERS = {"quick": 4, "thorough": 16}
 TIMEOUT = {"quick": 600, "thorough": 3000}
 RULE = ("seeded boxes in 1-4 parameters (widths 1e-3..1e3, offset from the origin at most two "
